@@ -227,6 +227,13 @@ func c08R1(a *A, r *Roles) {
 				} else {
 					a.hold(rule, key, w.posOf(x), "used as a bound")
 				}
+			case *ssa.ChangeType:
+				// a named slice type over the same bytes (`type packet []byte`): still transport memory
+				if !tainted[x] {
+					tainted[x] = true
+					a.hold(rule, key, w.posOf(x), "same memory under a named type")
+					visit(x)
+				}
 			case *ssa.IndexAddr:
 				okUse := true
 				for _, rr := range *x.Referrers() {
